@@ -1,6 +1,7 @@
 // C04 (memory safety, write confinement) and C05 (fail-closed) over the whole API.
 #include "apicall.hpp"
 #include "fuzz_decode.hpp"
+#include "boundary.hpp"
 #include "main.hpp"
 #ifndef VF_NO_RC
 #include "gen.hpp"
@@ -245,8 +246,39 @@ static int c05_run(Ctx &ctx) {
 #define c05_run nullptr
 #endif
 
+// C04 boundary grid: every method's settings at every total length around the size of the output field,
+// through every hashing entry point, with and without the object's own fields
+static int c04_grid(Ctx &ctx) {
+  size_t idx = 0;
+  for (size_t L = BOUNDARY_LO; L <= BOUNDARY_HI; L++)
+    for (auto &bs : boundary_settings(L)) {
+      if ((idx++ % (size_t)ctx.nshards) != (size_t)ctx.shard) continue;
+      ApiCase a;
+      a.entry = (int)(idx % 4);
+      a.phrase = (idx & 4) ? "pw" : "a longer phrase, thirty-two chars";
+      a.setting = bs.first;
+      a.own_fields = (idx & 8) != 0;
+      a.align = (int)(idx % 16);
+      a.fill = (int)((idx / 4) % 4);
+      a.prior = 0;
+      a.ra_state = (int)(idx % 3);
+      a.size = 100;
+      KV c = api_to_kv(a);
+      c.set("src", "boundary");
+      ctx.st.evaluations++;
+      ctx.current(c);
+      Verdict v = c04_check(c, ctx);
+      if (!v.empty()) {
+        ctx.fail(c, v);
+        return 1;
+      }
+      ctx.st.cls("c04-boundary/" + bs.second.substr(0, bs.second.find('/')));
+    }
+  return 0;
+}
+
 static Prop PROPS[] = {
-  {"C04", c04_check, c04_run, nullptr},
+  {"C04", c04_check, c04_run, c04_grid},
   {"C05", c05_check, c05_run, c05_grid},
 };
 
